@@ -11,7 +11,7 @@ SPEC = dict(
     cases_thorough=30000,
     cases_search=1500,
     level="proof",
-    coq_dirs=["lib", "gen/C16Tables.v", "C20"],
+    coq_dirs=["lib", "gen/C16Tables.v", "gen/C19Tables.v", "C20"],
     technique="Coq theorems over a Gallina model of the market-config update decision (Anchor account validation, ensure_has_any_role with error propagation, RoleStore::has_role, in-handler only_market_keeper for non-updatable keys, buffer ownership / expiry / scan / sequential application) for all environments, keys, values and buffers + differential correspondence and property oracle on the REAL update_market_config / update_market_config_flag / update_market_config_with_buffer entrypoints executed in-process (gmsol_store::entry with syscall stubs) on hand-built ledgers",
     text="keeper_any_key, config_keeper_only_updatable, accepted_update_is_entitled, others_rejected, buffer_all_or_nothing, keeper_buffer, accepted_buffer_is_entitled, expired_never_applied — for all stores, callers, keys, flags, updatable sets and buffers; model tied to the real entrypoints (exact error code, exact written values, nothing else changed).",
     level_note="Known finding class 1 (MarketKeeperRoleNotEnabled): ensure_has_any_role([MARKET_KEEPER, MARKET_CONFIG_KEEPER]) propagates the error of the MARKET_KEEPER lookup, so in a store where that role is disabled or was never created a config keeper is rejected even for updatable keys; the 'may update' clause is proved under mk_status = Enabled and refuted otherwise (c20_mk_role_not_enabled_refuted); the safety clauses (only entitled callers are accepted, all-or-nothing, expiry) hold in every store. Not modelled: cluster restart (RESTART_ADMIN substitution, covered in C19's driver), the bit container behind the updatable sets (index -> bool), realloc/close of buffers. Trusted: Anchor's order (accounts, attribute, handler), mini runtime.",
@@ -31,7 +31,8 @@ def repo_root():
 
 
 def pre(ctx):
-    p = subprocess.run([sys.executable, os.path.join(ROOT, "translate", "c16.py"), repo_root(), os.path.join(ROOT, "coq", "gen", "C16Tables.v")],
-                       stdout=subprocess.PIPE, stderr=subprocess.STDOUT, text=True)
-    if p.returncode != 0:
-        raise RuntimeError(f"translate/c16.py failed: {p.stdout.strip()[-600:]}")
+    for script, gen in (("c16.py", "C16Tables.v"), ("c19.py", "C19Tables.v")):
+        p = subprocess.run([sys.executable, os.path.join(ROOT, "translate", script), repo_root(), os.path.join(ROOT, "coq", "gen", gen)],
+                           stdout=subprocess.PIPE, stderr=subprocess.STDOUT, text=True)
+        if p.returncode != 0:
+            raise RuntimeError(f"translate/{script} failed: {p.stdout.strip()[-600:]}")
